@@ -262,7 +262,12 @@ func (in *interp) siteOf(fr *frame) string {
 	return name
 }
 
+var repoRoot string // spec.Repo: stripped from source positions
+
 func shortPath(p string) string {
+	if repoRoot != "" && strings.HasPrefix(p, repoRoot+"/") {
+		return p[len(repoRoot)+1:]
+	}
 	if i := strings.Index(p, "/repo/"); i >= 0 {
 		return p[i+6:]
 	}
